@@ -400,3 +400,218 @@ Example C13_example_history :
   /\ ok (CHist [model_call c1; model_call c2; GPdf [[1 # 8; 1 # 16]] (Some [1; 3]) 0 (Some [5 # 16])]) = false
   /\ ok (CHist [GRvs 2 (Some [(0, 1)]) [[[2]; [1 # 2]]] (Some [[1 # 2]])]) = false.
 Proof. vm_compute. repeat split; reflexivity. Qed.
+
+(** ---- non-vacuity of the hypotheses (audit) ---- *)
+(** One sample with a tie (positions 2 and 3) and a zero weight; two DIFFERENT sorting permutations
+    of it (the two tie-breaking orders).  All hypotheses of [C13_quantile_spec],
+    [C13_quantile_equal_weights], [C13_quantile_tie_independent], [C13_quantile_monotone],
+    [C13_quantile_scale_invariant] and [C13_model_ok] hold together on it. *)
+Definition C13_nv_xs : list Q := [3; 1; 2; 2; 5].
+Definition C13_nv_w : list Q := [1; 1; 0; 2; 4].
+Definition C13_nv_ix : list nat := [1; 3; 2; 0; 4]%nat.
+Definition C13_nv_ix' : list nat := [1; 2; 3; 0; 4]%nat.
+
+Example C13_quantile_hyps_nonvacuous :
+  length C13_nv_w = length C13_nv_xs /\ Forall (Qle 0) C13_nv_w /\ 0 < qsum C13_nv_w
+  /\ sorting_perm C13_nv_ix C13_nv_xs /\ sorting_perm C13_nv_ix' C13_nv_xs /\ C13_nv_ix <> C13_nv_ix'
+  /\ length C13_nv_ix = length C13_nv_xs
+  /\ 0 <= (1 # 4) /\ (1 # 4) <= (9 # 16) /\ (9 # 16) <= 1 /\ 0 < 3
+  /\ wsq_idx C13_nv_ix C13_nv_xs (1 # 4) (Some C13_nv_w) = Some 2
+  /\ wsq_idx C13_nv_ix' C13_nv_xs (1 # 4) (Some C13_nv_w) = Some 2
+  /\ wsq_idx C13_nv_ix' C13_nv_xs (9 # 16) (Some C13_nv_w) = Some 5
+  /\ wsq_idx C13_nv_ix' C13_nv_xs (1 # 4) (Some (map (Qmult 3) C13_nv_w)) = Some 2.
+Proof.
+  split; [reflexivity|].
+  split; [repeat (apply Forall_cons; [apply Qle_bool_imp_le; vm_compute; reflexivity|]); apply Forall_nil|].
+  split; [vm_compute; reflexivity|].
+  split; [apply C13_is_sorting_perm_sound; vm_compute; reflexivity|].
+  split; [apply C13_is_sorting_perm_sound; vm_compute; reflexivity|].
+  split; [intro HH; discriminate HH|].
+  split; [reflexivity|].
+  split; [apply Qle_bool_imp_le; vm_compute; reflexivity|].
+  split; [apply Qle_bool_imp_le; vm_compute; reflexivity|].
+  split; [apply Qle_bool_imp_le; vm_compute; reflexivity|].
+  split; [vm_compute; reflexivity|].
+  repeat split; vm_compute; reflexivity.
+Qed.
+
+(** the theorems applied to that instance *)
+Example C13_quantile_spec_nonvacuous :
+  exists q, wsq_idx C13_nv_ix C13_nv_xs (1 # 4) (Some C13_nv_w) = Some q /\ In q C13_nv_xs /\
+            (1 # 4) <= wle q (combine C13_nv_xs C13_nv_w) / qsum C13_nv_w /\
+            wlt q (combine C13_nv_xs C13_nv_w) / qsum C13_nv_w <= (1 # 4).
+Proof.
+  destruct C13_quantile_hyps_nonvacuous as (H1 & H2 & H3 & H4 & _ & _ & _ & H5 & H6 & H7 & _).
+  apply C13_quantile_spec; try assumption; apply Qle_trans with (9 # 16); assumption.
+Qed.
+
+Example C13_quantile_monotone_nonvacuous : (2 : Q) <= 5.
+Proof.
+  destruct C13_quantile_hyps_nonvacuous as (H1 & H2 & H3 & H4 & H4' & _ & _ & H5 & H6 & H7 & _ & R1 & _ & R2 & _).
+  exact (C13_quantile_monotone _ _ _ _ _ _ _ _ H1 H2 H3 H4 H4' H5 H6 H7 R1 R2).
+Qed.
+
+Example C13_model_ok_nonvacuous : quant_ok 0 (combine C13_nv_xs C13_nv_w) (1 # 4) 2 = true.
+Proof.
+  destruct C13_quantile_hyps_nonvacuous as (H1 & H2 & H3 & H4 & _ & _ & _ & H5 & H6 & H7 & _ & R1 & _).
+  apply (C13_model_ok C13_nv_ix C13_nv_xs C13_nv_w); try assumption; apply Qle_trans with (9 # 16); assumption.
+Qed.
+
+(** [C13_ok_sound]: positive total weight and an accepted answer, with and without slack *)
+Example C13_ok_sound_nonvacuous :
+  0 < wtot (combine C13_nv_xs C13_nv_w)
+  /\ quant_ok 0 (combine C13_nv_xs C13_nv_w) (1 # 4) 2 = true
+  /\ quant_ok (1 # 100) (combine C13_nv_xs C13_nv_w) (1 # 2) 3 = true
+  /\ quant_ok 0 (combine C13_nv_xs C13_nv_w) (1 # 4) 3 = false.
+Proof. repeat split; vm_compute; reflexivity. Qed.
+
+(** normalize_weights / compute_ess / weighted_var / ok_stat / ok_weights: weights [1;1;0;2],
+    common factor 3 (and -3 for the variance, whose theorems only ask [c <> 0]) *)
+Definition C13_nv_sx : list Q := [3; 1; 2; 2].
+Definition C13_nv_sw : list Q := [1; 1; 0; 2].
+
+Example C13_normalize_weights_nonvacuous :
+  normalize_weights C13_nv_sw = Some [1 # 4; 1 # 4; 0; 1 # 2]
+  /\ Forall (Qle 0) C13_nv_sw /\ 0 < qsum C13_nv_sw /\ 0 < 3 /\ ~ 3 == 0 /\ ~ - (3) == 0
+  /\ normalize_weights (map (Qmult 3) C13_nv_sw) = Some [1 # 4; 1 # 4; 0; 1 # 2]
+  /\ compute_ess C13_nv_sw = Some (8 # 3)
+  /\ compute_ess (map (Qmult 3) C13_nv_sw) = Some (8 # 3).
+Proof.
+  split; [vm_compute; reflexivity|].
+  split; [repeat (apply Forall_cons; [apply Qle_bool_imp_le; vm_compute; reflexivity|]); apply Forall_nil|].
+  split; [vm_compute; reflexivity|].
+  split; [vm_compute; reflexivity|].
+  split; [intro HH; vm_compute in HH; discriminate HH|].
+  split; [intro HH; vm_compute in HH; discriminate HH|].
+  repeat split; vm_compute; reflexivity.
+Qed.
+
+Example C13_var_nonvacuous :
+  wvar_rows (combine C13_nv_sx C13_nv_sw) = Some (4 # 5)
+  /\ wvar_rows (map (fun p => (fst p, 3 * snd p)) (combine C13_nv_sx C13_nv_sw)) = Some (4 # 5)
+  /\ wvar_rows (map (fun p => (fst p, - (3) * snd p)) (combine C13_nv_sx C13_nv_sw)) = Some (4 # 5)
+  /\ (** equal weights 2 *)
+     Forall (fun p => snd p == 2) (combine C13_nv_sx [2; 2; 2; 2]) /\ 0 < 2
+  /\ (2 <= length (combine C13_nv_sx [2; 2; 2; 2]))%nat
+  /\ wvar_rows (combine C13_nv_sx [2; 2; 2; 2]) = Some (2 # 3).
+Proof.
+  split; [vm_compute; reflexivity|].
+  split; [vm_compute; reflexivity|].
+  split; [vm_compute; reflexivity|].
+  split; [repeat (apply Forall_cons; [vm_compute; reflexivity|]); apply Forall_nil|].
+  split; [vm_compute; reflexivity|].
+  split; [vm_compute; repeat constructor|].
+  vm_compute; reflexivity.
+Qed.
+
+Example C13_var_equal_weights_nonvacuous :
+  (2 # 3) == qsum (map (fun p => sq (fst p - qsum (map fst (combine C13_nv_sx [2; 2; 2; 2])) / 4))
+                       (combine C13_nv_sx [2; 2; 2; 2])) / (4 - 1).
+Proof.
+  destruct C13_var_nonvacuous as (_ & _ & _ & H1 & _ & _ & H2).
+  exact (C13_var_equal_weights _ _ _ H1 H2).
+Qed.
+
+(** [C13_stat_ok_sound], [C13_var_ok_sound], [C13_stat_model_ok]: the decidable statement accepts
+    the exact answers, the variance is defined; a wrong ESS is refused *)
+Example C13_stat_ok_nonvacuous :
+  length C13_nv_sw = length C13_nv_sx /\ wf_stat_w C13_nv_sw = true
+  /\ var_defined (combine C13_nv_sx C13_nv_sw) = true /\ 0 <= (1 # 1000)
+  /\ ok_stat C13_nv_sx (Some C13_nv_sw) (1 # 1000) (Some [1 # 4; 1 # 4; 0; 1 # 2]) (Some (8 # 3)) (Some (4 # 5)) = true
+  /\ ok_stat C13_nv_sx (Some C13_nv_sw) (1 # 1000) (Some [1 # 4; 1 # 4; 0; 1 # 2]) (Some 3) (Some (4 # 5)) = false.
+Proof.
+  split; [reflexivity|]. split; [vm_compute; reflexivity|]. split; [vm_compute; reflexivity|].
+  split; [apply Qle_bool_imp_le; vm_compute; reflexivity|].
+  split; vm_compute; reflexivity.
+Qed.
+
+(** [C13_weights_ok_sound] / [C13_weights_model_ok]: a run at a positive scale inside an accepted list *)
+Example C13_weights_ok_nonvacuous :
+  let l := [(1 # 8, 0); (1, 0); (3, 1 # 1000)] in
+  let runs := map (model_wrun C13_nv_sw) l in
+  let r := model_wrun C13_nv_sw (3, 1 # 1000) in
+  Forall (fun st => 0 <= snd st) l
+  /\ wf_stat_w C13_nv_sw = true /\ ok_weights C13_nv_sw runs = true /\ In r runs /\ 0 < w_scale r.
+Proof.
+  cbv zeta.
+  split; [repeat (apply Forall_cons; [apply Qle_bool_imp_le; vm_compute; reflexivity|]); apply Forall_nil|].
+  split; [vm_compute; reflexivity|]. split; [vm_compute; reflexivity|].
+  split; [right; right; left; reflexivity|]. vm_compute; reflexivity.
+Qed.
+
+(** GMDistribution.pdf: two components, weights [1;3], "density" x*m at x = 1/4 for the means [2;1] *)
+Example C13_gm_pdf_nonvacuous :
+  gm_pdf_at Q Q Qmult (1 # 4) [2; 1] (Some [1; 3]) = Some (5 # 16)
+  /\ gm_pdf [1 # 2; 1 # 4] (Some [1; 3]) = Some (5 # 16)
+  /\ Forall (Qle 0) (weights_of (Some [1; 3]) [1 # 2; 1 # 4]) /\ 0 < qsum (weights_of (Some [1; 3]) [1 # 2; 1 # 4])
+  /\ Forall (Qle 0) [1 # 2; 1 # 4] /\ 0 < 3 /\ 0 <= (1 # 1000)
+  /\ gm_pdf [1 # 2; 1 # 4] (Some (map (Qmult 3) [1; 3])) = Some (5 # 16).
+Proof.
+  split; [vm_compute; reflexivity|]. split; [vm_compute; reflexivity|].
+  split; [repeat (apply Forall_cons; [apply Qle_bool_imp_le; vm_compute; reflexivity|]); apply Forall_nil|].
+  split; [vm_compute; reflexivity|].
+  split; [repeat (apply Forall_cons; [apply Qle_bool_imp_le; vm_compute; reflexivity|]); apply Forall_nil|].
+  split; [vm_compute; reflexivity|].
+  split; [apply Qle_bool_imp_le; vm_compute; reflexivity|].
+  vm_compute; reflexivity.
+Qed.
+
+(** the accept loop: a fully valid first batch ([C13_rvs_live]); a rejected batch in trial 1 of the
+    four-trial run of [C13_example_rvs] ([C13_rvs_rejected_batch]); an accepted sampler answer *)
+Definition C13_nv_valid (x : nat) : bool := (x <? 10)%nat.
+Definition C13_nv_draw (t n : nat) : list nat :=
+  firstn n (nth t [[1; 20; 30; 2]; [40; 50]; [3; 60]; [4; 5]] [])%nat.
+
+Example C13_rvs_live_nonvacuous :
+  let draw := fun (t n : nat) => firstn n (nth t [[1; 2; 3; 4; 5]] [])%nat in
+  length (draw 0%nat 4%nat) = 4%nat /\ forallb C13_nv_valid (draw 0%nat 4%nat) = true
+  /\ rvs nat C13_nv_valid draw 2 4 = Some [1; 2; 3; 4]%nat.
+Proof. repeat split; vm_compute; reflexivity. Qed.
+
+Example C13_rvs_rejected_batch_nonvacuous :
+  let acc := [1; 2]%nat in
+  (length acc < 4)%nat
+  /\ length (C13_nv_draw 1 (4 - length acc)) = (4 - length acc)%nat
+  /\ filter C13_nv_valid (C13_nv_draw 1 (4 - length acc)) = []
+  /\ rvs_loop nat C13_nv_valid C13_nv_draw 3 1 4 acc = Some [1; 2; 3; 4]%nat
+  /\ rvs nat C13_nv_valid C13_nv_draw 10 4 = Some [1; 2; 3; 4]%nat.
+Proof.
+  cbv zeta. split; [vm_compute; repeat constructor|]. repeat split; vm_compute; reflexivity.
+Qed.
+
+Example C13_rvs_ok_sound_nonvacuous :
+  ok_rvs 2 (Some [(0, 1)]) (Some [[1 # 2]; [1 # 3]]) = true.
+Proof. vm_compute; reflexivity. Qed.
+
+(** histories: the accepted four-call history of [C13_example_history]; its sampler call and its
+    density calls satisfy every hypothesis of [C13_hist_rvs_sound], [C13_hist_pdf_sound],
+    [C13_hist_pdf_defined]; its calls are well formed ([C13_hist_model_ok]) *)
+Definition C13_nv_calls : list gmcall :=
+  [GPdf [[1 # 2; 1 # 4]] (Some [1; 3]) 0 None;
+   GRvs 2 (Some [(0, 1)]) [[[2]; [1 # 2]]; [[1 # 3]]] None;
+   GPdf [[1 # 8; 1 # 16]] (Some [1; 3]) 0 None;
+   GLogpdf [[1 # 8; 1 # 16]] (Some [1; 3]) (1 # 1000) None].
+
+Example C13_hist_nonvacuous :
+  let calls := map model_call C13_nv_calls in
+  Forall call_wf C13_nv_calls
+  /\ ok (CHist calls) = true
+  /\ In (GRvs 2 (Some [(0, 1)]) [[[2]; [1 # 2]]; [[1 # 3]]] (Some [[1 # 2]; [1 # 3]])) calls
+  /\ In (GPdf [[1 # 8; 1 # 16]] (Some [1; 3]) 0 (Some [5 # 64])) calls
+  /\ In (GLogpdf [[1 # 8; 1 # 16]] (Some [1; 3]) (1 # 1000) (Some [5 # 64])) calls
+  /\ wf_stat_w [1; 3] = true
+  /\ nth_error [[1 # 8; 1 # 16]] 0 = Some [1 # 8; 1 # 16] /\ nth_error [5 # 64] 0 = Some (5 # 64)
+  /\ length [1; 3] = length [1 # 8; 1 # 16] /\ In [1 # 8; 1 # 16] [[1 # 8; 1 # 16]].
+Proof.
+  cbv zeta.
+  split.
+  { repeat (apply Forall_cons || apply Forall_nil); simpl;
+      try split; try (apply Qle_bool_imp_le; vm_compute; reflexivity);
+      vm_compute; intro HH; discriminate HH. }
+  split; [vm_compute; reflexivity|].
+  split; [vm_compute; right; left; reflexivity|].
+  split; [vm_compute; right; right; left; reflexivity|].
+  split; [vm_compute; right; right; right; left; reflexivity|].
+  split; [vm_compute; reflexivity|].
+  repeat split; try reflexivity. left; reflexivity.
+Qed.
